@@ -2,6 +2,7 @@
 // engines/filesave.py), or loads a directory the way a node start does and reports what it found (C20).
 //   filerec prepare-wallet <dir>   a wallet with label "old"
 //   filerec save-wallet <dir>      loads it, sets label "new", wallet.Save (the real save path)
+//   filerec newaddr-wallet <dir>   wallet.NewService + Service.NewAddresses(1) (writability probe, derivation, save)
 //   filerec load-wallet <dir>      wallet.NewService on the directory: {"ok":bool,"content":"old"|"new"|"other","err":...}
 //   filerec prepare-kv <dir> / save-kv <dir> / load-kv <dir>   the same for kvstorage (key k: "old" -> "new")
 package main
@@ -61,6 +62,19 @@ func main() {
 			die(err)
 		}
 		out(true, "new", "")
+	case "newaddr-wallet":
+		// the service-level path: NewAddresses checks that the file is writable, derives one more address and saves
+		cfg := wallet.NewConfig()
+		cfg.WalletDir = dir
+		cfg.EnableWalletAPI = true
+		s, err := wallet.NewService(cfg)
+		if err != nil {
+			die(err)
+		}
+		if _, err := s.NewAddresses(wname, nil, wallet.OptionGenerateN(1)); err != nil {
+			die(err)
+		}
+		out(true, "new", "")
 	case "load-wallet":
 		cfg := wallet.NewConfig()
 		cfg.WalletDir = dir
@@ -78,13 +92,14 @@ func main() {
 			out(false, "missing", "the wallet is not loaded")
 			return
 		}
-		c := w.Label()
-		if c != "old" && c != "new" {
-			c = "other"
-		}
+		// old: label "old" and 3 entries; new: either the label became "new" or a fourth address was derived
 		es, _ := w.GetEntries()
-		if len(es) != 3 {
-			c = "other"
+		c := "other"
+		switch {
+		case w.Label() == "old" && len(es) == 3:
+			c = "old"
+		case (w.Label() == "new" && len(es) == 3) || (w.Label() == "old" && len(es) == 4):
+			c = "new"
 		}
 		out(true, c, "")
 	case "prepare-kv":
